@@ -83,7 +83,19 @@ class RangeSeq(SymSeq):
             raise OutOfSubset('range with step and symbolic bounds')
         self.lo, self.hi = lo, hi
         if isinstance(hi, SKey) or isinstance(lo, SKey):
-            raise OutOfSubset('range over bit-vector ints')
+            # elements are bit-vector ints: the element at a generic index is a fresh k with lo <= k < hi
+            # (index <-> value is the identity shift, recorded as a BV2Int link)
+            lo_k = lo if isinstance(lo, SKey) else SKey.const(lo)
+            hi_k = hi if isinstance(hi, SKey) else SKey.const(hi)
+            ctx = interp.ctx
+            ln = z3.BV2Int(hi_k.t, True) - z3.BV2Int(lo_k.t, True)
+
+            def get(i):
+                k = SKey.fresh(ctx.fresh('rk'), lo_k.lo, max(hi_k.hi - 1, lo_k.lo))
+                current().assume(z3.And(k.t >= lo_k.t, k.t < hi_k.t, z3.BV2Int(k.t, True) == sint(i).t + z3.BV2Int(lo_k.t, True)))
+                return k
+            super().__init__(interp, SInt(z3.If(ln > 0, ln, 0)), get, 'range')
+            return
         ln = sint(hi) - sint(lo)
         super().__init__(interp, SInt(z3.If(ln.t > 0, ln.t, 0)), lambda i: i + lo, 'range')
 
@@ -508,6 +520,8 @@ class Spelling:
 
 
 def model_join(interp, sep, it):
+    if hasattr(it, 'kvc_symbolic_seq'):
+        return JoinText(sep, it)
     xs = list(interp.iterate(it))
     if all(isinstance(x, str) for x in xs):
         return sep.join(xs)
@@ -529,3 +543,15 @@ class JoinText:
 
     def __init__(self, sep, xs):
         self.sep, self.xs = sep, xs
+
+    def kvc_binop(self, interp, op, other, reflected):
+        if op != 'Add':
+            raise OutOfSubset('operator on structured text')
+        return Text([other, self] if reflected else [self, other])
+
+
+class NumText:
+    """str() of a symbolic int inside structured text."""
+
+    def __init__(self, v):
+        self.v = v
